@@ -19,18 +19,26 @@ Params(S, mx, n) ==
   [N |-> Nocc(S, n), na |-> Cardinality(NodesSpanned(S, mx, n)),
    rows |-> {<<k.s, Wt(S, k), {<<i, Kocc(S, i, n)>> : i \in k.s}>> : k \in TestedOf(S, mx, n)}]
 
+\* TLC evaluates function constructors lazily (once per application): TLCEval forces the tables that are
+\* looked up many times
 C19SClauses(c) ==
-  LET S  == DecState(c.st)
+  LET S0 == DecState(c.st)
+      S  == [S0 EXCEPT !.E = TLCEval(S0.E)]
       mx == c.mx
       szs == Rng(c.sizes)
-      Good(s) == /\ s.n \in TestedSizes(S, mx)
-                 /\ {RK(r) : r \in Rng(s.rows)} = TestedOf(S, mx, s.n)
-                 /\ Len(s.rows) = Cardinality(TestedOf(S, mx, s.n))
-      Ex(s) == ExactRegime(Nocc(S, s.n), s.n)
+      tsz == TLCEval(TestedSizes(S, mx))
+      Good0(s) == /\ s.n \in tsz
+                  /\ {RK(r) : r \in Rng(s.rows)} = TestedOf(S, mx, s.n)
+                  /\ Len(s.rows) = Cardinality(TestedOf(S, mx, s.n))
+      good == TLCEval([s \in szs |-> Good0(s)])
+      Good(s) == good[s]
+      exr == TLCEval([s \in szs |-> ExactRegime(Nocc(S, s.n), s.n)])
+      Ex(s) == exr[s]
+      kb == TLCEval([s \in szs |-> IF Good(s) THEN [r \in Rng(s.rows) |-> <<KBag(S, RK(r)), Wt(S, RK(r))>>] ELSE <<>>])
   IN IF ~c.ok THEN {<<"svh_returns", FALSE>>} ELSE
-     {<<"svh_tested_sizes", {s.n : s \in szs} = TestedSizes(S, mx) /\ Len(c.sizes) = Cardinality(TestedSizes(S, mx))>>,
+     {<<"svh_tested_sizes", {s.n : s \in szs} = tsz /\ Len(c.sizes) = Cardinality(tsz)>>,
       <<"svh_every_hyperedge_once_under_its_size",
-        \A s \in szs : s.n \in TestedSizes(S, mx) =>
+        \A s \in szs : s.n \in tsz =>
             /\ Good(s)
             /\ \A r \in Rng(s.rows) : Len(r.e) = s.n /\ Cardinality(Rng(r.e)) = s.n>>,
       <<"svh_harness_regime_agrees", \A s \in szs : Good(s) => (s.exact = Ex(s))>>,
@@ -39,16 +47,16 @@ C19SClauses(c) ==
             /\ s.den = PDen(S, s.n)
             /\ \A r \in Rng(s.rows) : r.pok /\ r.pnum = PNum(S, RK(r))>>,
       <<"svh_validated_iff_below_threshold",
-        \A s \in szs : (Good(s) /\ Ex(s) /\ s.exact /\ ~OnALevel(PValues(S, mx, s.n), InvLevel(S, mx, s.n))) =>
-            {RK(r) : r \in {x \in Rng(s.rows) : x.fdr}} = Validated(S, mx, s.n)>>,
+        \A s \in szs : (Good(s) /\ Ex(s) /\ s.exact) =>
+            LET P == TLCEval(PValues(S, mx, s.n))  M == InvLevel(S, mx, s.n)
+            IN ~OnALevel(P, M) => {RK(r) : r \in {x \in Rng(s.rows) : x.fdr}} = StepUpValidated(P, M)>>,
       <<"svh_validated_is_lower_set",
         \A s \in szs : \A r1, r2 \in Rng(s.rows) : (r1.fdr /\ ~r2.fdr) => r2.rank >= r1.rank>>,
       <<"svh_pvalue_depends_on_parameters_only",
         \A s \in szs : Good(s) => \A r1, r2 \in Rng(s.rows) :
-            LET k1 == RK(r1) k2 == RK(r2) IN
-            (KBag(S, k1) = KBag(S, k2)) =>
-                /\ (Wt(S, k1) = Wt(S, k2) => r1.rank = r2.rank)
-                /\ (Wt(S, k1) < Wt(S, k2) => r1.rank >= r2.rank)>>,
+            (kb[s][r1][1] = kb[s][r2][1]) =>
+                /\ (kb[s][r1][2] = kb[s][r2][2] => r1.rank = r2.rank)
+                /\ (kb[s][r1][2] < kb[s][r2][2] => r1.rank >= r2.rank)>>,
       <<"emit", \A s \in szs : (Good(s) /\ ~Ex(s)) =>
             PrintT("PAR " \o ToJson([id |-> c.id, n |-> s.n, par |-> Params(S, mx, s.n)]))>>}
 
